@@ -4,10 +4,11 @@ import Proofs.Apps.Wkc
 # C17 — Site routing: exact match, longest prefix for nested sites, matching discovery
 
 Model: `AiocoapModel/Apps/Site.lean` (`Site.routeFrom`, `Site.route`, `Site.serve`, `Site.reg`)
-and `AiocoapModel/Apps/Wkc.lean` (`Site.links`, `wkcRender`) — the functions the driver runs
-against the real `Site` / `WKCResource`.  All theorems hold for every tree of registrations
-(any nesting depth, any keys incl. empty components and empty paths), every request path and
-every original path.  Only property theorems and non-vacuity examples live in this file.
+and `AiocoapModel/Apps/Wkc.lean` (`Site.links`, `hrefSegs`, `wkcRender`) — the functions the
+driver runs against the real `Site` / `WKCResource`.  All theorems hold for every tree of
+registrations (any nesting depth, any keys incl. empty components and empty paths, any bytes in
+the components), every request path and every original path.  Only property theorems and
+non-vacuity examples live in this file.
 -/
 namespace Aiocoap.Apps
 
@@ -22,32 +23,66 @@ theorem C17_exact_first (rs : List (Path × Res)) (ss : List (Path × Site)) (or
   rw [routeFrom_node, h]
 
 /-- **C17 (longest prefix).** Without a resource at exactly `p`, the nested site `t` registered
-at the longest non-empty proper prefix `k` of `p` handles the request: the result is whatever `t`
-does with the remaining components `p.drop k.length` (a lone empty component addressing `t`'s own
-root) and the same original path — including `t`'s own 4.04, there is no fall-back to a shorter
-prefix. -/
+at the longest proper prefix `k` of `p` (the empty path is a proper prefix of every non-empty
+one) handles the request: the result is whatever `t` does with the remaining components
+`p.drop k.length` (a lone empty component addressing `t`'s own root) and the same original path —
+including `t`'s own 4.04, there is no fall-back to a shorter prefix. -/
 theorem C17_longest_prefix (rs : List (Path × Res)) (ss : List (Path × Site)) (orig p k : Path)
     (t : Site) (hno : lookup p rs = none) (hk : lookup k ss = some t) (hpre : ProperPrefix k p)
     (hmax : ∀ k' ∈ keys ss, ProperPrefix k' p → k'.length ≤ k.length) :
     (Site.node rs ss).routeFrom orig p = t.routeFrom orig (normRem (p.drop k.length)) ∧
       k ++ p.drop k.length = p := by
   have hb := bestSplit_of_longest (mem_keys_of_mem (lookup_mem hk)) hpre hmax
-  rw [routeFrom_node, hno]
+  rw [routeFrom_node_of_ne rs ss orig hpre.ne_nil, hno]
   simp only [hb]
   rw [← hpre.eq_take.1, hk]
   exact ⟨rfl, hpre.split.1⟩
 
-/-- **C17 (otherwise 4.04).** No resource at exactly `p` and no nested site at a non-empty proper
-prefix of `p`: `KeyError`, i.e. 4.04 (in particular: a nested site registered at `p` itself or at
-the empty path never answers). -/
+/-- **C17 (otherwise 4.04).** No resource at exactly `p` and no nested site at a proper prefix of
+`p` (the empty prefix included): `KeyError`, i.e. 4.04 (in particular: a nested site registered at
+`p` itself never answers) — for every request path of a fresh request, and for every non-empty
+path a nested site is handed.  (The empty path inside a nested site is its root:
+`C17_nested_root`.) -/
 theorem C17_else_404 (rs : List (Path × Res)) (ss : List (Path × Site)) (orig p : Path)
-    (hno : lookup p rs = none) (hnone : ∀ k ∈ keys ss, ¬ ProperPrefix k p) :
+    (hno : lookup p rs = none) (hnone : ∀ k ∈ keys ss, ¬ ProperPrefix k p)
+    (hroot : p = [] → orig = [] ∨ lookup [[]] rs = none) :
     (Site.node rs ss).routeFrom orig p = none := by
-  rw [routeFrom_node, hno]
-  simp only [bestSplit_none_of_no_prefix hnone]
+  by_cases hp : p = []
+  · subst hp
+    rw [routeFrom_node_nil, hno]
+    rcases hroot rfl with h | h
+    · simp [h]
+    · simp [h]
+  · rw [routeFrom_node_of_ne rs ss orig hp, hno]
+    simp only [bestSplit_none_of_no_prefix hp hnone]
+
+/-- `C17_else_404` for a request as it arrives (`_original_request_path` is its own path): no
+side condition. -/
+theorem C17_else_404_fresh (rs : List (Path × Res)) (ss : List (Path × Site)) (p : Path)
+    (hno : lookup p rs = none) (hnone : ∀ k ∈ keys ss, ¬ ProperPrefix k p) :
+    (Site.node rs ss).route p = none :=
+  C17_else_404 rs ss p p hno hnone (fun h => Or.inl h)
+
+/-- **C17 (root of a nested site).** A nested site is handed the empty path when the request ends
+in the trailing slash that addresses its root (`orig ≠ []`: something was stripped).  Its resource
+registered at `[]` answers; without one, the resource registered at `[""]` — listed under the same
+address `k/` — does; otherwise 4.04. -/
+theorem C17_nested_root (rs : List (Path × Res)) (ss : List (Path × Site)) (orig : Path)
+    (horig : orig ≠ []) :
+    (Site.node rs ss).routeFrom orig [] =
+      match lookup [] rs with
+      | some r => some ⟨r.id, [], orig⟩
+      | none => (lookup [[]] rs).map (fun r => ⟨r.id, [], orig⟩) := by
+  rw [routeFrom_node_nil]
+  cases lookup [] rs with
+  | some r => rfl
+  | none =>
+    simp only [horig, ↓reduceIte]
+    cases lookup [[]] rs <;> rfl
 
 /-- The three clauses are exhaustive: every site and request path falls under exactly one of
-`C17_exact_first`, `C17_longest_prefix`, `C17_else_404`. -/
+`C17_exact_first`, `C17_longest_prefix`, `C17_else_404` (resp. `C17_nested_root` for the empty
+path inside a nested site). -/
 theorem C17_route_cases (rs : List (Path × Res)) (ss : List (Path × Site)) (p : Path) :
     (∃ r, lookup p rs = some r) ∨
     (lookup p rs = none ∧ ∃ k t, lookup k ss = some t ∧ ProperPrefix k p ∧
@@ -57,18 +92,22 @@ theorem C17_route_cases (rs : List (Path × Res)) (ss : List (Path × Site)) (p 
   | some r => exact Or.inl ⟨r, rfl⟩
   | none =>
     right
+    by_cases hp : p = []
+    · right
+      refine ⟨rfl, fun k _ hpre => hpre.ne_nil hp⟩
+    have hpos : 0 < p.length := List.length_pos_iff.mpr hp
     cases hb : bestSplit (keys ss) p (p.length - 1) with
     | none =>
       right
       refine ⟨rfl, fun k hk hpre => ?_⟩
-      obtain ⟨h1, h2, h3⟩ := hpre.eq_take
-      exact bestSplit_none hb k.length h2 h3 (h1 ▸ hk)
+      obtain ⟨h1, h3⟩ := hpre.eq_take
+      exact bestSplit_none hb k.length h3 (h1 ▸ hk)
     | some j =>
       left
-      obtain ⟨a, b, c, d⟩ := bestSplit_some hb
+      obtain ⟨b, c, d⟩ := bestSplit_some hb
       obtain ⟨t, ht⟩ := Option.isSome_iff_exists.mp (lookup_isSome_iff.mpr c)
-      refine ⟨rfl, p.take j, t, ht, properPrefix_take a b, fun k' hk' hpre' => ?_⟩
-      obtain ⟨h1, h2, h3⟩ := hpre'.eq_take
+      refine ⟨rfl, p.take j, t, ht, properPrefix_take (by omega), fun k' hk' hpre' => ?_⟩
+      obtain ⟨h1, h3⟩ := hpre'.eq_take
       simp only [List.length_take]
       by_cases hlt : j < k'.length
       · exact absurd (h1 ▸ hk') (d k'.length hlt h3)
@@ -99,17 +138,19 @@ theorem C17_uri_path_abbrev (s : Site) (n : Nat) (p : Path) :
 -- the handler's view -----------------------------------------------------------------------
 
 /-- `Reaches s m id`: following registration keys that concatenate to `m` from `s` — sub-site
-keys (non-empty) and finally a resource key, or ending at a `PathCapable` leaf — one arrives at
-the handler `id`. -/
+keys and finally a resource key, or ending at a `PathCapable` leaf — one arrives at the handler
+`id`. -/
 inductive Reaches : Site → Path → Nat → Prop where
   | res {rs ss q r} : lookup q rs = some r → Reaches (.node rs ss) q r.id
   | leaf {id} : Reaches (.leaf id) [] id
-  | sub {rs ss k t m id} : lookup k ss = some t → k ≠ [] → Reaches t m id →
+  | sub {rs ss k t m id} : lookup k ss = some t → Reaches t m id →
       Reaches (.node rs ss) (k ++ m) id
 
 theorem stripped_and_original_aux (s : Site) : ∀ (orig p : Path) (h : Hit),
     s.routeFrom orig p = some h →
-    h.orig = orig ∧ ∃ m, Reaches s m h.id ∧ (p = m ++ h.seen ∨ (h.seen = [] ∧ p = m ++ [[]])) := by
+    h.orig = orig ∧ ∃ m, Reaches s m h.id ∧
+      (p = m ++ h.seen ∨ (h.seen = [] ∧ p = m ++ [[]]) ∨
+        (h.seen = [] ∧ p = [] ∧ m = [[]] ∧ orig ≠ [])) := by
   induction s using Site.induct with
   | leaf id =>
     intro orig p h hr
@@ -118,7 +159,27 @@ theorem stripped_and_original_aux (s : Site) : ∀ (orig p : Path) (h : Hit),
     exact ⟨rfl, [], .leaf, Or.inl rfl⟩
   | node rs ss ih =>
     intro orig p h hr
-    rw [routeFrom_node] at hr
+    by_cases hp : p = []
+    · subst hp
+      rw [routeFrom_node_nil] at hr
+      cases hl : lookup [] rs with
+      | some r =>
+        simp only [hl, Option.some.injEq] at hr
+        subst hr
+        exact ⟨rfl, [], .res hl, Or.inl (by simp)⟩
+      | none =>
+        simp only [hl] at hr
+        by_cases ho : orig = []
+        · simp [ho] at hr
+        · simp only [ho, ↓reduceIte] at hr
+          cases hl2 : lookup [[]] rs with
+          | none => simp [hl2] at hr
+          | some r =>
+            simp only [hl2, Option.some.injEq] at hr
+            subst hr
+            exact ⟨rfl, [[]], .res hl2, Or.inr (Or.inr ⟨rfl, rfl, rfl, ho⟩)⟩
+    rw [routeFrom_node_of_ne rs ss orig hp] at hr
+    have hpos : 0 < p.length := List.length_pos_iff.mpr hp
     cases hl : lookup p rs with
     | some r =>
       simp only [hl, Option.some.injEq] at hr
@@ -130,28 +191,35 @@ theorem stripped_and_original_aux (s : Site) : ∀ (orig p : Path) (h : Hit),
       | none => simp [hb] at hr
       | some j =>
         simp only [hb] at hr
-        obtain ⟨a, b, c, _⟩ := bestSplit_some hb
+        obtain ⟨b, c, _⟩ := bestSplit_some hb
         cases hk : lookup (p.take j) ss with
         | none => simp [hk] at hr
         | some t =>
           simp only [hk] at hr
           obtain ⟨ho, m, hreach, hsplit⟩ := ih _ t (lookup_mem hk) orig _ h hr
-          have hpp := properPrefix_take a b
           have hsp : p.take j ++ p.drop j = p := List.take_append_drop j p
-          refine ⟨ho, p.take j ++ m, .sub hk hpp.1 hreach, ?_⟩
+          have hdrop : p.drop j ≠ [] := by
+            intro e
+            have := congrArg List.length e
+            simp only [List.length_drop, List.length_nil] at this
+            omega
+          refine ⟨ho, p.take j ++ m, .sub hk hreach, ?_⟩
           unfold normRem at hsplit
           by_cases hrem : p.drop j = [[]]
           · simp only [hrem, ↓reduceIte] at hsplit
-            rcases hsplit with h1 | ⟨_, h1⟩
+            rcases hsplit with h1 | ⟨_, h1⟩ | ⟨h0, _, hm, _⟩
             · have hm : m = [] ∧ h.seen = [] := List.append_eq_nil_iff.mp h1.symm
-              right
+              right; left
               refine ⟨hm.2, ?_⟩
               rw [hm.1, List.append_nil, ← hrem, hsp]
             · cases m <;> simp at h1
+            · left
+              rw [hm, h0, List.append_nil, ← hrem, hsp]
           · simp only [hrem, ↓reduceIte] at hsplit
-            rcases hsplit with h1 | ⟨h0, h1⟩
+            rcases hsplit with h1 | ⟨h0, h1⟩ | ⟨_, h1, _, _⟩
             · left; rw [List.append_assoc, ← h1, hsp]
-            · right; exact ⟨h0, by rw [List.append_assoc, ← h1, hsp]⟩
+            · right; left; exact ⟨h0, by rw [List.append_assoc, ← h1, hsp]⟩
+            · exact absurd h1 hdrop
 
 /-- **C17 (stripped path, original URI).** Whenever a request for `p` is rendered by a handler,
 the handler still has the original path (`_original_request_path = p`, from which
@@ -161,8 +229,13 @@ the handler still has the original path (`_original_request_path = p`, from whic
 site's root. -/
 theorem C17_stripped_and_original (s : Site) (p : Path) (h : Hit) (hr : s.route p = some h) :
     h.orig = p ∧ ∃ matched, Reaches s matched h.id ∧
-      (p = matched ++ h.seen ∨ (h.seen = [] ∧ p = matched ++ [[]])) :=
-  stripped_and_original_aux s p p h hr
+      (p = matched ++ h.seen ∨ (h.seen = [] ∧ p = matched ++ [[]])) := by
+  obtain ⟨ho, m, hreach, hsplit⟩ := stripped_and_original_aux s p p h hr
+  refine ⟨ho, m, hreach, ?_⟩
+  rcases hsplit with h1 | h1 | ⟨_, h1, _, h2⟩
+  · exact Or.inl h1
+  · exact Or.inr h1
+  · exact absurd h1 h2
 
 /-- A plain resource (anything that is not a `PathCapable` leaf) never sees path components:
 reaching a resource leaves `seen = []`. -/
@@ -174,26 +247,44 @@ theorem C17_resource_sees_empty_path (rs : List (Path × Res)) (ss : List (Path 
 -- registration changes -----------------------------------------------------------------------
 
 /-- **C17 (add takes effect).** Right after `add_resource(path, r)` a request for `path` is
-rendered by `r`; requests for any other path are answered as before. -/
+rendered by `r`; requests for any other path are answered as before.  (Inside a nested site the
+paths `[]` and `[""]` both spell its root `k/` — `C17_nested_root` —, so there `[""]` counts as
+the same address as `[]`; for requests as they arrive there is no such case.) -/
 theorem C17_add_resource_next_request (rs : List (Path × Res)) (ss : List (Path × Site))
     (path : Path) (r : Res) :
     ∃ s', (Site.node rs ss).reg (.addRes [] path r) = some s' ∧
       (∀ orig, s'.routeFrom orig path = some ⟨r.id, [], orig⟩) ∧
-      (∀ orig p, p ≠ path → s'.routeFrom orig p = (Site.node rs ss).routeFrom orig p) := by
-  refine ⟨.node (insert path r rs) ss, rfl, fun orig => ?_, fun orig p hp => ?_⟩
+      (∀ orig p, p ≠ path → (p = [] → path = [[]] → orig = []) →
+        s'.routeFrom orig p = (Site.node rs ss).routeFrom orig p) ∧
+      (∀ p, p ≠ path → s'.route p = (Site.node rs ss).route p) := by
+  have hother : ∀ orig p, p ≠ path → (p = [] → path = [[]] → orig = []) →
+      (Site.node (insert path r rs) ss).routeFrom orig p = (Site.node rs ss).routeFrom orig p := by
+    intro orig p hp hnr
+    rw [routeFrom_node, routeFrom_node, lookup_insert_ne hp]
+    by_cases hp0 : p = []
+    · by_cases hpath : path = [[]]
+      · simp [hp0, hnr hp0 hpath]
+      · rw [lookup_insert_ne (Ne.symm hpath)]
+    · simp only [hp0, ↓reduceIte]
+  refine ⟨.node (insert path r rs) ss, rfl, fun orig => ?_, hother, fun p hp => ?_⟩
   · exact C17_exact_first _ _ _ _ _ (lookup_insert_self path r rs)
-  · rw [routeFrom_node, routeFrom_node, lookup_insert_ne hp]
+  · exact hother p p hp (fun h _ => h)
 
 /-- **C17 (remove takes effect).** `remove_resource(path)` on a site that has no nested site at
 `path` succeeds iff a resource is registered there; right afterwards that resource no longer
 answers — a request for `path` is handled as if only the nested sites existed (4.04 unless one is
-registered at a proper prefix) — and requests for other paths are answered as before. -/
+registered at a proper prefix) — and requests for other paths are answered as before.  (Same
+remark on `[]` / `[""]` inside a nested site as for `C17_add_resource_next_request`.) -/
 theorem C17_remove_resource_next_request (rs : List (Path × Res)) (ss : List (Path × Site))
     (path : Path) (hsub : path ∉ keys ss) :
     ((Site.node rs ss).reg (.remove [] path) = none ↔ lookup path rs = none) ∧
     ∀ s', (Site.node rs ss).reg (.remove [] path) = some s' →
-      (∀ orig, s'.routeFrom orig path = (Site.node [] ss).routeFrom orig path) ∧
-      (∀ orig p, p ≠ path → s'.routeFrom orig p = (Site.node rs ss).routeFrom orig p) := by
+      (∀ orig, (path = [] → orig = [] ∨ lookup [[]] rs = none) →
+        s'.routeFrom orig path = (Site.node [] ss).routeFrom orig path) ∧
+      (∀ orig p, p ≠ path → (p = [] → path = [[]] → orig = []) →
+        s'.routeFrom orig p = (Site.node rs ss).routeFrom orig p) ∧
+      s'.route path = (Site.node [] ss).route path ∧
+      (∀ p, p ≠ path → s'.route p = (Site.node rs ss).route p) := by
   have hreg : (Site.node rs ss).reg (.remove [] path) =
       if path ∈ keys rs then some (.node (erase path rs) ss) else none := by
     simp [Site.reg, Site.modifyAt, Site.remove, hsub]
@@ -202,16 +293,36 @@ theorem C17_remove_resource_next_request (rs : List (Path × Res)) (ss : List (P
   · simp only [hr, ↓reduceIte, reduceCtorEq, false_iff, Option.some.injEq]
     refine ⟨fun h => lookup_eq_none_iff.mp h hr, ?_⟩
     rintro s' rfl
-    refine ⟨fun orig => ?_, fun orig p hp => ?_⟩
-    · rw [routeFrom_node, routeFrom_node, lookup_erase_self]; rfl
-    · rw [routeFrom_node, routeFrom_node, lookup_erase_ne hp]
+    have hself : ∀ orig, (path = [] → orig = [] ∨ lookup [[]] rs = none) →
+        (Site.node (erase path rs) ss).routeFrom orig path =
+          (Site.node [] ss).routeFrom orig path := by
+      intro orig hnr
+      rw [routeFrom_node, routeFrom_node, lookup_erase_self]
+      by_cases hp0 : path = []
+      · subst hp0
+        have hne : ([[]] : Path) ≠ [] := by simp
+        rcases hnr rfl with h | h
+        · simp [h]
+        · simp [lookup_erase_ne hne, h]
+      · simp only [hp0, ↓reduceIte, lookup_nil]
+    have hother : ∀ orig p, p ≠ path → (p = [] → path = [[]] → orig = []) →
+        (Site.node (erase path rs) ss).routeFrom orig p =
+          (Site.node rs ss).routeFrom orig p := by
+      intro orig p hp hnr
+      rw [routeFrom_node, routeFrom_node, lookup_erase_ne hp]
+      by_cases hp0 : p = []
+      · by_cases hpath : path = [[]]
+        · simp [hp0, hnr hp0 hpath]
+        · rw [lookup_erase_ne (Ne.symm hpath)]
+      · simp only [hp0, ↓reduceIte]
+    exact ⟨hself, hother, hself path (fun h => Or.inl h), fun p hp => hother p p hp (fun h _ => h)⟩
   · simp only [hr, ↓reduceIte, true_iff]
     exact ⟨lookup_eq_none_iff.mpr hr, fun s' h => by cases h⟩
 
 /-- **C17 (nested site added / replaced).** Right after `add_resource(k, t)` with a
-`PathCapable` `t`, every request that has no exact resource, has `k` as non-empty proper prefix
-and no longer registered prefix goes to `t` with the remaining components; requests of which `k`
-is not a proper prefix are answered as before. -/
+`PathCapable` `t`, every request that has no exact resource, has `k` as proper prefix and no
+longer registered prefix goes to `t` with the remaining components; requests of which `k` is not
+a proper prefix are answered as before. -/
 theorem C17_add_site_next_request (rs : List (Path × Res)) (ss : List (Path × Site))
     (k : Path) (t : Site) :
     ∃ s', (Site.node rs ss).reg (.addSite [] k t) = some s' ∧
@@ -226,42 +337,22 @@ theorem C17_add_site_next_request (rs : List (Path × Res)) (ss : List (Path × 
     · exact Nat.le_refl _
     · exact hmax k' h hpre'
   · -- `k` is no candidate for `p`, so the search sees the same candidates with the same values
-    rw [routeFrom_node, routeFrom_node]
+    by_cases hp : p = []
+    · subst hp; rw [routeFrom_node_nil, routeFrom_node_nil]
+    rw [routeFrom_node_of_ne _ _ _ hp, routeFrom_node_of_ne _ _ _ hp]
+    have hpos : 0 < p.length := List.length_pos_iff.mpr hp
     cases lookup p rs with
     | some r => rfl
     | none =>
       simp only
-      have hsame : bestSplit (keys (insert k t ss)) p (p.length - 1) =
-          bestSplit (keys ss) p (p.length - 1) := by
-        cases hb : bestSplit (keys ss) p (p.length - 1) with
-        | none =>
-          apply bestSplit_none_of_no_prefix
-          intro k' hk' hpre'
-          rcases mem_keys_insert.mp hk' with rfl | h
-          · exact hnp hpre'
-          · obtain ⟨h1, h2, h3⟩ := hpre'.eq_take
-            exact bestSplit_none hb _ h2 h3 (h1 ▸ h)
-        | some j =>
-          obtain ⟨a, b, c, d⟩ := bestSplit_some hb
-          have := bestSplit_of_longest (ks := keys (insert k t ss)) (p := p) (k := p.take j)
-            (mem_keys_insert.mpr (Or.inr c)) (properPrefix_take a b) (by
-              intro k' hk' hpre'
-              rcases mem_keys_insert.mp hk' with rfl | h
-              · exact absurd hpre' hnp
-              · obtain ⟨h1, h2, h3⟩ := hpre'.eq_take
-                simp only [List.length_take]
-                by_cases hlt : j < k'.length
-                · exact absurd (h1 ▸ h) (d _ hlt h3)
-                · omega)
-          simp only [List.length_take] at this
-          rw [this]; congr; omega
-      rw [hsame]
+      rw [bestSplit_congr_of_not_prefix (ks' := keys (insert k t ss)) (ks := keys ss) hp hnp
+        (fun k' hne => by rw [mem_keys_insert]; exact ⟨fun h => h.resolve_left hne, Or.inr⟩)]
       cases hb : bestSplit (keys ss) p (p.length - 1) with
       | none => rfl
       | some j =>
         simp only
-        obtain ⟨a, b, _, _⟩ := bestSplit_some hb
-        have hne : p.take j ≠ k := fun e => hnp (e ▸ properPrefix_take a b)
+        obtain ⟨b, _, _⟩ := bestSplit_some hb
+        have hne : p.take j ≠ k := fun e => hnp (e ▸ properPrefix_take (by omega))
         rw [lookup_insert_ne hne]
 
 /-- **C17 (nested site removed).** `remove_resource(k)` on a site with a nested site at `k`
@@ -271,50 +362,33 @@ and requests of which `k` is not a proper prefix are answered as before. -/
 theorem C17_remove_site_next_request (rs : List (Path × Res)) (ss : List (Path × Site))
     (k : Path) (hk : k ∈ keys ss) :
     (Site.node rs ss).reg (.remove [] k) = some (.node rs (erase k ss)) ∧
-    (∀ orig p, lookup p rs = none →
+    (∀ orig p, lookup p rs = none → p ≠ [] →
       (∀ k' ∈ keys ss, ProperPrefix k' p → k' = k) →
       (Site.node rs (erase k ss)).routeFrom orig p = none) ∧
     (∀ orig p, ¬ ProperPrefix k p →
       (Site.node rs (erase k ss)).routeFrom orig p = (Site.node rs ss).routeFrom orig p) := by
-  refine ⟨by simp [Site.reg, Site.modifyAt, Site.remove, hk], fun orig p hno honly => ?_,
+  refine ⟨by simp [Site.reg, Site.modifyAt, Site.remove, hk], fun orig p hno hp honly => ?_,
     fun orig p hnp => ?_⟩
-  · apply C17_else_404 _ _ _ _ hno
+  · apply C17_else_404 _ _ _ _ hno _ (fun h => absurd h hp)
     intro k' hk' hpre'
     obtain ⟨hne, hmem⟩ := mem_keys_erase.mp hk'
     exact hne (honly k' hmem hpre')
-  · rw [routeFrom_node, routeFrom_node]
+  · by_cases hp : p = []
+    · subst hp; rw [routeFrom_node_nil, routeFrom_node_nil]
+    rw [routeFrom_node_of_ne _ _ _ hp, routeFrom_node_of_ne _ _ _ hp]
+    have hpos : 0 < p.length := List.length_pos_iff.mpr hp
     cases lookup p rs with
     | some r => rfl
     | none =>
       simp only
-      have hsame : bestSplit (keys (erase k ss)) p (p.length - 1) =
-          bestSplit (keys ss) p (p.length - 1) := by
-        cases hb : bestSplit (keys ss) p (p.length - 1) with
-        | none =>
-          apply bestSplit_none_of_no_prefix
-          intro k' hk' hpre'
-          obtain ⟨h1, h2, h3⟩ := hpre'.eq_take
-          exact bestSplit_none hb _ h2 h3 (h1 ▸ (mem_keys_erase.mp hk').2)
-        | some j =>
-          obtain ⟨a, b, c, d⟩ := bestSplit_some hb
-          have hne : p.take j ≠ k := fun e => hnp (e ▸ properPrefix_take a b)
-          have := bestSplit_of_longest (ks := keys (erase k ss)) (p := p) (k := p.take j)
-            (mem_keys_erase.mpr ⟨hne, c⟩) (properPrefix_take a b) (by
-              intro k' hk' hpre'
-              obtain ⟨h1, h2, h3⟩ := hpre'.eq_take
-              simp only [List.length_take]
-              by_cases hlt : j < k'.length
-              · exact absurd (h1 ▸ (mem_keys_erase.mp hk').2) (d _ hlt h3)
-              · omega)
-          simp only [List.length_take] at this
-          rw [this]; congr; omega
-      rw [hsame]
+      rw [bestSplit_congr_of_not_prefix (ks' := keys (erase k ss)) (ks := keys ss) hp hnp
+        (fun k' hne => by rw [mem_keys_erase]; exact ⟨fun h => h.2, fun h => ⟨hne, h⟩⟩)]
       cases hb : bestSplit (keys ss) p (p.length - 1) with
       | none => rfl
       | some j =>
         simp only
-        obtain ⟨a, b, _, _⟩ := bestSplit_some hb
-        have hne : p.take j ≠ k := fun e => hnp (e ▸ properPrefix_take a b)
+        obtain ⟨b, _, _⟩ := bestSplit_some hb
+        have hne : p.take j ≠ k := fun e => hnp (e ▸ properPrefix_take (by omega))
         rw [lookup_erase_ne hne]
 
 /-- **C17 (changes inside a nested site).** A registration call on the nested site object at
@@ -338,7 +412,10 @@ theorem C17_nested_change_next_request (rs : List (Path × Res)) (ss : List (Pat
     fun orig p hcase => ?_⟩
   · exact (C17_longest_prefix rs _ orig p k t' hno (lookup_insert_self k t' ss) hpre
       (by rw [hkeys]; exact hmax)).1
-  · rw [routeFrom_node, routeFrom_node, hkeys]
+  · by_cases hp : p = []
+    · subst hp; rw [routeFrom_node_nil, routeFrom_node_nil]
+    rw [routeFrom_node_of_ne _ _ _ hp, routeFrom_node_of_ne _ _ _ hp, hkeys]
+    have hpos : 0 < p.length := List.length_pos_iff.mpr hp
     cases hl : lookup p rs with
     | some r => rfl
     | none =>
@@ -347,13 +424,13 @@ theorem C17_nested_change_next_request (rs : List (Path × Res)) (ss : List (Pat
       | none => rfl
       | some j =>
         simp only
-        obtain ⟨a, b, c, d⟩ := bestSplit_some hb
+        obtain ⟨b, c, d⟩ := bestSplit_some hb
         have hne : p.take j ≠ k := by
           intro e
           rcases hcase with h | h | ⟨k', hk', hpre', hlt⟩
           · exact h hl
-          · exact h (e ▸ properPrefix_take a b)
-          · obtain ⟨h1, h2, h3⟩ := hpre'.eq_take
+          · exact h (e ▸ properPrefix_take (by omega))
+          · obtain ⟨h1, h3⟩ := hpre'.eq_take
             have hj : j = k.length := by
               have := congrArg List.length e
               simp only [List.length_take] at this
@@ -466,26 +543,27 @@ theorem C17_dict_invariant (s : Site) (hs : DictTree s) (history : List Reg)
 -- discovery ---------------------------------------------------------------------------------
 
 /-- `Registered s fp r`: resource `r` is registered somewhere in the tree `s`, and `fp` are the
-segments of its full path through the nested sites: its own registration path, prefixed by the
-keys of the sub-sites above it (`seg` turns an empty path into the single empty segment — the root
-resource of a nested site at `k` is `k/`; for non-empty keys `seg k = k`). -/
+segments of its full path through the nested sites: its own registration path (`seg` turns an
+empty path into the single empty segment — the root resource of a nested site at `k` is `k/`, the
+one of the whole tree `/`; for non-empty keys `seg q = q`), prefixed by the keys of the sub-sites
+above it. -/
 inductive Registered : Site → Path → Res → Prop where
   | res {rs ss q r} : (q, r) ∈ rs → Registered (.node rs ss) (seg q) r
   | sub {rs ss k t fp r} : (k, t) ∈ ss → Registered t fp r →
-      Registered (.node rs ss) (seg k ++ fp) r
+      Registered (.node rs ss) (k ++ fp) r
 
 theorem Registered.ne_nil {s : Site} {fp : Path} {r : Res} (h : Registered s fp r) : fp ≠ [] := by
-  cases h with
+  induction h with
   | res _ => exact seg_ne_nil _
-  | sub _ _ => intro e; exact seg_ne_nil _ (List.append_eq_nil_iff.mp e).1
+  | sub _ _ ih => intro e; exact ih (List.append_eq_nil_iff.mp e).2
 
 /-- **C17 (listing = visible registered resources, full paths).** A link is in what
-`get_resources_as_linkheader` returns iff it is `</full/path>` + description of a registered
-resource that does not hide itself (`get_link_description() is None`), with the full path
-through all nested sites. -/
+`get_resources_as_linkheader` returns iff it is `<href of the full path>` + description of a
+registered resource that does not hide itself (`get_link_description() is None`), with the full
+path through all nested sites; the href is `/` + percent-encoded segment for every segment. -/
 theorem C17_wkc_exact (s : Site) : ∀ l : Link,
     l ∈ s.links ↔ ∃ fp r, Registered s fp r ∧ r.hidden = false ∧
-      l = ⟨47 :: joinSlash fp, r.attrs⟩ := by
+      l = ⟨hrefSegs fp, r.attrs⟩ := by
   induction s using Site.induct with
   | leaf id =>
     intro l
@@ -497,15 +575,96 @@ theorem C17_wkc_exact (s : Site) : ∀ l : Link,
     simp only [List.mem_flatMap, List.mem_map]
     constructor
     · rintro (⟨q, r, hm, hv, rfl⟩ | ⟨⟨k, t⟩, hm, l', hl', rfl⟩)
-      · exact ⟨seg q, r, .res hm, hv, by rw [joinSlash_seg]⟩
+      · exact ⟨seg q, r, .res hm, hv, rfl⟩
       · obtain ⟨fp, r, hreg, hv, rfl⟩ := (ih k t hm l').mp hl'
-        exact ⟨seg k ++ fp, r, .sub hm hreg, hv, prefixLink_href k hreg.ne_nil _⟩
+        exact ⟨k ++ fp, r, .sub hm hreg, hv, prefixLink_href k fp _⟩
     · rintro ⟨fp, r, hreg, hv, rfl⟩
       cases hreg with
-      | res hm => exact Or.inl ⟨_, r, hm, hv, by rw [joinSlash_seg]⟩
+      | res hm => exact Or.inl ⟨_, r, hm, hv, rfl⟩
       | @sub _ _ k t fp' _ hm hreg' =>
-        refine Or.inr ⟨(k, t), hm, ⟨47 :: joinSlash fp', r.attrs⟩, ?_, prefixLink_href k hreg'.ne_nil _⟩
+        refine Or.inr ⟨(k, t), hm, ⟨hrefSegs fp', r.attrs⟩, ?_, prefixLink_href k fp' _⟩
         exact (ih k t hm _).mpr ⟨fp', r, hreg', hv, rfl⟩
+
+-- hrefs name paths ------------------------------------------------------------------------------
+
+/-- **C17 (href names the path).** Reading the href of a full path `fp` back as a path-absolute
+URI reference (RFC 3986: strip the leading `/`, split at `/`, percent-decode each segment) gives
+exactly `fp`, whatever bytes the components contain (`/`, `%`, `>`, `,`, space, non-ASCII …). -/
+theorem C17_href_roundtrip (fp : Path) (hne : fp ≠ []) (hwf : PathWf fp) :
+    parseHref (hrefSegs fp) = some fp :=
+  parseHref_hrefSegs hne hwf
+
+/-- **C17 (distinct paths, distinct hrefs).** Two full paths with the same href are the same
+path: a client can recover the registered path from the listing. -/
+theorem C17_href_injective (fp fp' : Path) (hwf : PathWf fp) (hwf' : PathWf fp')
+    (h : hrefSegs fp = hrefSegs fp') : fp = fp' := by
+  cases fp with
+  | nil =>
+    cases fp' with
+    | nil => rfl
+    | cons c cs => rw [hrefSegs_nil, hrefSegs_cons] at h; cases h
+  | cons c cs =>
+    cases fp' with
+    | nil => rw [hrefSegs_nil, hrefSegs_cons] at h; cases h
+    | cons c' cs' =>
+      have h1 := parseHref_hrefSegs (p := c :: cs) (by simp) hwf
+      have h2 := parseHref_hrefSegs (p := c' :: cs') (by simp) hwf'
+      rw [h, h2] at h1
+      exact (Option.some.inj h1).symm
+
+/-- **C17 (href syntax).** An href consists of `/`, `%` and the characters `_quote_for_href`
+leaves alone (unreserved, sub-delims, `:`, `@`) only — all ASCII, and none of `>` `<` `"` space
+`?` `#` `\`, so the link-format framing `<href>;…,` cannot be broken by a path component. -/
+theorem C17_href_chars (fp : Path) (hwf : PathWf fp) (b : Nat) (hb : b ∈ hrefSegs fp) :
+    (b = 47 ∨ b = 37 ∨ hrefSafe b = true) ∧ b < 127 ∧
+      b ≠ 62 ∧ b ≠ 60 ∧ b ≠ 34 ∧ b ≠ 32 ∧ b ≠ 63 ∧ b ≠ 35 ∧ b ≠ 92 := by
+  have h := mem_hrefSegs_char hwf hb
+  refine ⟨h, ?_⟩
+  rcases h with rfl | rfl | h
+  · decide
+  · decide
+  · simp only [hrefSafe, Bool.or_eq_true, Bool.and_eq_true, decide_eq_true_eq, beq_iff_eq] at h
+    omega
+
+/-- **C17 (every listed link names a registered resource's path).** Each link of the listing
+belongs to a visible registered resource, carries its description, and its href reads back as that
+resource's full path through the nested sites. -/
+theorem C17_listed_href_resolves (s : Site) (l : Link) (hl : l ∈ s.links) :
+    ∃ fp r, Registered s fp r ∧ r.hidden = false ∧ l.attrs = r.attrs ∧
+      (PathWf fp → parseHref l.href = some fp) := by
+  obtain ⟨fp, r, hreg, hv, rfl⟩ := (C17_wkc_exact s l).mp hl
+  exact ⟨fp, r, hreg, hv, rfl, fun hwf => parseHref_hrefSegs hreg.ne_nil hwf⟩
+
+/-- Which hrefs are not path-absolute references although they read back correctly segment by
+segment: exactly those of full paths whose first of several segments is empty (`//x`, a
+network-path reference).  The lone empty segment gives `/`. -/
+theorem C17_href_double_slash_iff (fp : Path) :
+    (∃ rest, hrefSegs fp = 47 :: 47 :: rest) ↔ ∃ c cs, fp = [] :: c :: cs := by
+  constructor
+  · rintro ⟨rest, h⟩
+    cases fp with
+    | nil => rw [hrefSegs_nil] at h; cases h
+    | cons a as =>
+      cases a with
+      | nil =>
+        cases as with
+        | nil => simp [hrefSegs, escStr] at h
+        | cons c cs => exact ⟨c, cs, rfl⟩
+      | cons x xs =>
+        rw [hrefSegs_cons, escStr_cons] at h
+        have h47 : (escByte x ++ escStr xs ++ hrefSegs as).head? = some 47 := by
+          simp only [List.cons.injEq, true_and] at h
+          rw [h]; rfl
+        have hx := escByte_no_slash x
+        unfold escByte at h47 hx
+        by_cases hs : hrefSafe x = true
+        · simp only [hs, ↓reduceIte, List.cons_append, List.nil_append, List.head?_cons,
+            Option.some.injEq] at h47
+          simp only [hs, ↓reduceIte, List.mem_singleton] at hx
+          exact absurd h47.symm hx
+        · simp [hs] at h47
+  · rintro ⟨c, cs, rfl⟩
+    exact ⟨escStr c ++ hrefSegs cs, by simp [hrefSegs_cons, escStr]⟩
 
 mutual
 /-- number of registered resources in the tree that do not hide themselves -/
@@ -540,35 +699,44 @@ theorem C17_wkc_count (s : Site) : s.links.length = s.visibleCount := by
     exact ih k t he
 
 /-- **C17 (discovery matches routing).** A link listed for a resource of a nested site —
-registered at `q` in the site registered at `k` — names the path `k ++ seg q`; a request for that
-path is rendered by that very resource, provided nothing shadows it (no root resource at the same
-path, no nested site at a longer prefix) and `q` is not the lone empty component (which, like the
-empty path, denotes `k/`).  Root-level links (`k`-less) are `C17_exact_first`. -/
+registered at `q` in the site registered at `k` (any `k`, the empty path included) — names the
+path `k ++ seg q`; a request for that path is rendered by that very resource, provided nothing
+shadows it: no resource of the outer site at the same path, no nested site at a longer prefix,
+and — for `q = [""]`, which like `[]` spells `k/` — no resource at `[]` in the same nested site.
+Root-level links (`k`-less) are `C17_exact_first`. -/
 theorem C17_listed_link_routes_to_resource (rs rs' : List (Path × Res))
     (ss ss' : List (Path × Site)) (k q : Path) (r : Res)
     (hdict : (keys ss).Nodup) (hdict' : (keys rs').Nodup)
-    (hk : (k, Site.node rs' ss') ∈ ss) (hkne : k ≠ []) (hq : (q, r) ∈ rs') (hq1 : q ≠ [[]])
+    (hk : (k, Site.node rs' ss') ∈ ss) (hq : (q, r) ∈ rs')
+    (hroot : q = [[]] → lookup [] rs' = none)
     (hshadow : lookup (k ++ seg q) rs = none)
     (hlonger : ∀ k' ∈ keys ss, ProperPrefix k' (k ++ seg q) → k'.length ≤ k.length) :
     Registered (Site.node rs ss) (k ++ seg q) r ∧
     (Site.node rs ss).route (k ++ seg q) = some ⟨r.id, [], k ++ seg q⟩ := by
   constructor
-  · have := Registered.sub (rs := rs) hk (Registered.res (ss := ss') hq)
-    rwa [seg_of_ne_nil hkne] at this
+  · exact Registered.sub (rs := rs) hk (Registered.res (ss := ss') hq)
   · have hpre : ProperPrefix k (k ++ seg q) := by
-      refine ⟨hkne, ?_, List.prefix_append k _⟩
+      refine ⟨?_, List.prefix_append k _⟩
       have := List.length_pos_iff.mpr (seg_ne_nil q)
       simp only [List.length_append]; omega
+    have horig : k ++ seg q ≠ [] := hpre.ne_nil
     unfold Site.route
     rw [(C17_longest_prefix rs ss _ _ k _ hshadow (lookup_of_mem hdict hk) hpre hlonger).1,
       List.drop_left]
-    have hn : normRem (seg q) = q := by
-      unfold normRem seg
-      by_cases h : q = []
-      · simp [h]
-      · simp [h, hq1]
-    rw [hn]
-    exact C17_exact_first rs' ss' _ q r (lookup_of_mem hdict' hq)
+    have hlq := lookup_of_mem hdict' hq
+    by_cases h0 : q = []
+    · subst h0
+      have hn : normRem (seg []) = [] := by simp [normRem, seg]
+      rw [hn]
+      exact C17_exact_first rs' ss' _ [] r hlq
+    · by_cases h1 : q = [[]]
+      · subst h1
+        have hn : normRem (seg [[]]) = [] := by simp [normRem, seg]
+        rw [hn, C17_nested_root rs' ss' _ horig, hroot rfl, hlq]
+        rfl
+      · have hn : normRem (seg q) = q := by simp [normRem, seg, h0, h1]
+        rw [hn]
+        exact C17_exact_first rs' ss' _ q r hlq
 
 -- RFC 6690 filter ---------------------------------------------------------------------------
 
@@ -613,10 +781,6 @@ theorem linkMatches_iff (k v : Str) (l : Link) : linkMatches k v l = true ↔ Ma
       · rintro ⟨val, hv, hmatch⟩; exact ⟨val, mem_attributeValues.mp hv, hmatch⟩
       · rintro ⟨val, hv, hmatch⟩; exact ⟨val, mem_attributeValues.mpr hv, hmatch⟩
 
-/-- what `render_get` filters: the generator's links plus the optional impl-info link -/
-def wkcAll (links : List Link) (implInfo : Option Str) : List Link :=
-  links ++ (match implInfo with | some u => [implInfoLink u] | none => [])
-
 /-- how a query item is read: `k=v` split at the first `=`, items without `=` are no filters -/
 theorem C17_filter_query_parse (q k v : Str) :
     (splitEq q = some (k, v) ↔ q = k ++ 61 :: v ∧ 61 ∉ k) ∧ (splitEq q = none ↔ 61 ∉ q) := by
@@ -627,71 +791,139 @@ theorem C17_filter_query_parse (q k v : Str) :
     obtain ⟨h1, _⟩ := splitEq_some (k := kv.1) (v := kv.2) hs
     exact absurd (h1 ▸ by simp) h
 
+/-- **C17 (several filters = conjunction).** With any number of filter arguments in the query
+(`?rt=temp&if=sensor`, repeated names included; items without `=` are ignored),
+`/.well-known/core` answers exactly the sub-list of the links it would list without query that
+match EVERY argument: same order, same multiplicity, nothing else — each argument is evaluated
+with its own name and pattern. -/
+theorem C17_wkc_filters_conjunctive (links : List Link) (implInfo : Option Str)
+    (queries : List Str) :
+    ∃ keep : Link → Bool,
+      (∀ l, keep l = true ↔ ∀ k v, (k, v) ∈ queries.filterMap splitEq → Matches k v l) ∧
+      wkcRender links implInfo queries = (wkcAll links implInfo).filter keep := by
+  refine ⟨fun l => (queries.filterMap splitEq).all (fun kv => linkMatches kv.1 kv.2 l),
+    fun l => ?_, ?_⟩
+  · simp only [List.all_eq_true, linkMatches_iff]
+    exact ⟨fun h k v hm => h (k, v) hm, fun h kv hm => h kv.1 kv.2 hm⟩
+  · rw [wkcRender_eq, applyFilters_eq_filter_all]
+
+/-- membership form of `C17_wkc_filters_conjunctive`: a link is in the answer iff it is listed
+and matches every filter argument of the query -/
+theorem C17_wkc_filters_mem (links : List Link) (implInfo : Option Str) (queries : List Str) :
+    (wkcRender links implInfo queries).Sublist (wkcAll links implInfo) ∧
+    ∀ l, l ∈ wkcRender links implInfo queries ↔
+      l ∈ wkcAll links implInfo ∧ ∀ k v, (k, v) ∈ queries.filterMap splitEq → Matches k v l := by
+  obtain ⟨keep, hkeep, hres⟩ := C17_wkc_filters_conjunctive links implInfo queries
+  rw [hres]
+  refine ⟨List.filter_sublist, fun l => ?_⟩
+  rw [List.mem_filter, hkeep]
+
+/-- **C17 (filters are applied one after the other).** Filtering by the arguments `f :: fs` is
+filtering the answer for `fs` by `f`: adding an argument can only remove links, and removes
+exactly those not matching it (RFC 6690 §4.1 match of that argument's own name and pattern). -/
+theorem C17_wkc_filters_successive (links : List Link) (implInfo : Option Str) (k v : Str)
+    (fs : List (Str × Str)) (l : Link) :
+    l ∈ applyFilters ((k, v) :: fs) (wkcAll links implInfo) ↔
+      l ∈ applyFilters fs (wkcAll links implInfo) ∧ Matches k v l := by
+  rw [applyFilters_cons, List.mem_filter, linkMatches_iff]
+
+/-- the order of the filter arguments (and repeating one) does not matter -/
+theorem C17_wkc_filters_order_irrelevant (links : List Link) (implInfo : Option Str)
+    (fs fs' : List (Str × Str)) (h : ∀ kv, kv ∈ fs ↔ kv ∈ fs') :
+    applyFilters fs (wkcAll links implInfo) = applyFilters fs' (wkcAll links implInfo) := by
+  rw [applyFilters_eq_filter_all, applyFilters_eq_filter_all]
+  apply List.filter_congr
+  intro l _
+  rw [Bool.eq_iff_iff]
+  simp only [List.all_eq_true]
+  exact ⟨fun hh kv hm => hh kv ((h kv).mpr hm), fun hh kv hm => hh kv ((h kv).mp hm)⟩
+
 /-- **C17 (filter = matching subset).** With one RFC 6690 filter `k=v` / `k=v*` in the query
 (items without `=` are ignored), `/.well-known/core` answers exactly the sub-list of the links it
 would list without query that match the filter: same order, same multiplicity, nothing else. -/
 theorem C17_filter_subset (links : List Link) (implInfo : Option Str) (queries : List Str)
     (k v : Str) (hq : queries.filterMap splitEq = [(k, v)]) :
     ∃ keep : Link → Bool, (∀ l, keep l = true ↔ Matches k v l) ∧
-      wkcRender links implInfo queries = some ((wkcAll links implInfo).filter keep) := by
+      wkcRender links implInfo queries = (wkcAll links implInfo).filter keep := by
   refine ⟨linkMatches k v, linkMatches_iff k v, ?_⟩
-  cases implInfo <;> simp only [wkcRender, hq, wkcAll]
+  rw [wkcRender_eq, hq, applyFilters_cons, applyFilters_nil]
 
 /-- without a filter the whole listing is returned -/
 theorem C17_no_filter_full_listing (links : List Link) (implInfo : Option Str)
     (queries : List Str) (hq : ∀ q ∈ queries, 61 ∉ q) :
-    wkcRender links implInfo queries = some (wkcAll links implInfo) := by
+    wkcRender links implInfo queries = wkcAll links implInfo := by
   have : queries.filterMap splitEq = [] := by
     rw [List.filterMap_eq_nil_iff]
     intro q hmem
     exact ((C17_filter_query_parse q [] []).2).mpr (hq q hmem)
-  cases implInfo <;> simp only [wkcRender, this, wkcAll]
+  rw [wkcRender_eq, this, applyFilters_nil]
 
 /-- membership form of `C17_filter_subset` -/
 theorem C17_filter_mem (links : List Link) (implInfo : Option Str) (queries : List Str)
     (k v : Str) (hq : queries.filterMap splitEq = [(k, v)]) :
-    ∃ result, wkcRender links implInfo queries = some result ∧ result.Sublist (wkcAll links implInfo) ∧
-      ∀ l, l ∈ result ↔ l ∈ wkcAll links implInfo ∧ Matches k v l := by
+    (wkcRender links implInfo queries).Sublist (wkcAll links implInfo) ∧
+      ∀ l, l ∈ wkcRender links implInfo queries ↔ l ∈ wkcAll links implInfo ∧ Matches k v l := by
   obtain ⟨keep, hkeep, hres⟩ := C17_filter_subset links implInfo queries k v hq
-  refine ⟨_, hres, List.filter_sublist, fun l => ?_⟩
+  rw [hres]
+  refine ⟨List.filter_sublist, fun l => ?_⟩
   rw [List.mem_filter, hkeep]
 
 -- non-vacuity ----------------------------------------------------------------------------------
 
-/-- `/batch` example of the `Site` docstring plus shadowing: resource `1` at `batch/light1` in the
-root, nested site at `batch` with `light1` (2), its root (3), a deeper site at `batch/deep/er`
-holding a `PathCapable` leaf (6) -/
+/-- `/batch` example of the `Site` docstring plus shadowing (`b` = 98, `l` = 108, …): resource `1`
+at `b/l` in the root, nested site at `b` with `l` (2), its root (3), a deeper site at `b/d/e`
+holding a `PathCapable` leaf (6) at `f` -/
 def exampleSite : Site :=
-  .node [([[1], [2]], ⟨1, false, []⟩)]
-    [([[1]], .node [([[2]], ⟨2, false, []⟩), ([], ⟨3, false, []⟩)]
-        [([[4], [5]], .node [] [([[7]], .leaf 6)])])]
+  .node [([[98], [108]], ⟨1, false, []⟩)]
+    [([[98]], .node [([[108]], ⟨2, false, []⟩), ([], ⟨3, false, []⟩)]
+        [([[100], [101]], .node [] [([[102]], .leaf 6)])])]
 
-example : exampleSite.route [[1], [2]] = some ⟨1, [], [[1], [2]]⟩ := by decide   -- exact first
-example : exampleSite.route [[1], []] = some ⟨3, [], [[1], []]⟩ := by decide     -- trailing slash
-example : exampleSite.route [[1]] = none := by decide                            -- not proper
-example : exampleSite.route [[1], [4], [5], [7], [8], []] =
-    some ⟨6, [[8], []], [[1], [4], [5], [7], [8], []]⟩ := by decide              -- three levels
-example : exampleSite.route [[1], [4], [5], [9]] = none := by decide
+example : exampleSite.route [[98], [108]] = some ⟨1, [], [[98], [108]]⟩ := by decide   -- exact first
+example : exampleSite.route [[98], []] = some ⟨3, [], [[98], []]⟩ := by decide         -- trailing slash
+example : exampleSite.route [[98]] = none := by decide                                 -- not proper
+example : exampleSite.route [[98], [100], [101], [102], [103], []] =
+    some ⟨6, [[103], []], [[98], [100], [101], [102], [103], []]⟩ := by decide         -- three levels
+example : exampleSite.route [[98], [100], [101], [104]] = none := by decide
+/-- a nested site at the empty path is consulted last: `x` is its resource, `y/z` belongs to the
+nested site at `y`, `/` (empty path) is not a proper extension of the empty prefix -/
+def emptyPrefixSite : Site :=
+  .node [] [([], .node [([[120]], ⟨1, false, []⟩), ([[121], [122]], ⟨2, false, []⟩)] []),
+    ([[121]], .node [([[122]], ⟨3, false, []⟩)] [])]
+example : emptyPrefixSite.route [[120]] = some ⟨1, [], [[120]]⟩ := by decide
+example : emptyPrefixSite.route [[121], [122]] = some ⟨3, [], [[121], [122]]⟩ := by decide
+example : emptyPrefixSite.route [[121], [119]] = none := by decide     -- no fall-back to `[]`
+example : emptyPrefixSite.route [] = none := by decide
+example : emptyPrefixSite.links.map (·.href) = [[47, 120], [47, 121, 47, 122], [47, 121, 47, 122]] := by
+  decide
+/-- a nested site's resource at `[""]` answers at `k/` when there is none at `[]`; at the root of
+the tree `[]` and `[""]` stay different request paths -/
+def nestedRootSite : Site := .node [([[]], ⟨7, false, []⟩)] [([[107]], .node [([[]], ⟨8, false, []⟩)] [])]
+example : nestedRootSite.route [[107], []] = some ⟨8, [], [[107], []]⟩ := by decide
+example : nestedRootSite.route [[107], [], []] = none := by decide
+example : nestedRootSite.route [] = none := by decide
+example : nestedRootSite.route [[]] = some ⟨7, [], [[]]⟩ := by decide
+example : (nestedRootSite.reg (.addRes [[[107]]] [] ⟨9, false, []⟩)).map (·.route [[107], []]) =
+    some (some ⟨9, [], [[107], []]⟩) := by decide
 /-- the hypotheses of `C17_longest_prefix` are satisfiable -/
 example : ProperPrefix [[1]] [[1], [4], [5], [7]] ∧
     ∀ k' ∈ keys [(([[1]] : Path), Site.leaf 0)], ProperPrefix k' [[1], [4], [5], [7]] →
       k'.length ≤ ([[1]] : Path).length := by
-  refine ⟨⟨by decide, by decide, ⟨[[4], [5], [7]], rfl⟩⟩, ?_⟩
+  refine ⟨⟨by decide, ⟨[[4], [5], [7]], rfl⟩⟩, ?_⟩
   intro k' hk' _
   simp [keys] at hk'
   subst hk'; decide
-example : Reaches exampleSite [[1], [4], [5], [7]] 6 := by
+example : Reaches exampleSite [[98], [100], [101], [102]] 6 := by
   unfold exampleSite
-  refine Reaches.sub (k := [[1]]) (m := [[4], [5], [7]])
-    (t := .node [([[2]], ⟨2, false, []⟩), ([], ⟨3, false, []⟩)]
-      [([[4], [5]], .node [] [([[7]], .leaf 6)])]) rfl (by decide) ?_
-  refine Reaches.sub (k := [[4], [5]]) (m := [[7]]) (t := .node [] [([[7]], .leaf 6)])
-    rfl (by decide) ?_
-  exact Reaches.sub (k := [[7]]) (m := []) (t := .leaf 6) rfl (by decide) .leaf
-example : (exampleSite.reg (.remove [] [[1], [2]])).map (·.route [[1], [2]]) =
-    some (some ⟨2, [], [[1], [2]]⟩) := by decide
-example : (exampleSite.reg (.addRes [[[1]]] [[9]] ⟨9, false, []⟩)).map (·.route [[1], [9]]) =
-    some (some ⟨9, [], [[1], [9]]⟩) := by decide
+  refine Reaches.sub (k := [[98]]) (m := [[100], [101], [102]])
+    (t := .node [([[108]], ⟨2, false, []⟩), ([], ⟨3, false, []⟩)]
+      [([[100], [101]], .node [] [([[102]], .leaf 6)])]) rfl ?_
+  refine Reaches.sub (k := [[100], [101]]) (m := [[102]]) (t := .node [] [([[102]], .leaf 6)])
+    rfl ?_
+  exact Reaches.sub (k := [[102]]) (m := []) (t := .leaf 6) rfl .leaf
+example : (exampleSite.reg (.remove [] [[98], [108]])).map (·.route [[98], [108]]) =
+    some (some ⟨2, [], [[98], [108]]⟩) := by decide
+example : (exampleSite.reg (.addRes [[[98]]] [[109]] ⟨9, false, []⟩)).map (·.route [[98], [109]]) =
+    some (some ⟨9, [], [[98], [109]]⟩) := by decide
 
 example : DictTree exampleSite := by
   unfold exampleSite
@@ -709,19 +941,39 @@ example : DictTree exampleSite := by
   obtain ⟨rfl, rfl⟩ := hm
   exact .leaf
 /-- the hypotheses of `C17_listed_link_routes_to_resource` are satisfiable: the root resource of
-the nested site, listed as `1/` -/
-example : Registered exampleSite [[1], []] ⟨3, false, []⟩ ∧
-    exampleSite.route [[1], []] = some ⟨3, [], [[1], []]⟩ :=
-  C17_listed_link_routes_to_resource _ _ _ _ [[1]] [] ⟨3, false, []⟩ (by decide) (by decide)
-    (List.mem_singleton.mpr rfl) (by decide) (by simp) (by decide) (by decide)
-    (by intro k' hk' _; simp [keys] at hk'; subst hk'; decide)
+the nested site, listed as `b/` -/
+example : Registered exampleSite [[98], []] ⟨3, false, []⟩ ∧
+    exampleSite.route [[98], []] = some ⟨3, [], [[98], []]⟩ :=
+  C17_listed_link_routes_to_resource [([[98], [108]], ⟨1, false, []⟩)]
+    [([[108]], ⟨2, false, []⟩), ([], ⟨3, false, []⟩)] _
+    [([[100], [101]], .node [] [([[102]], .leaf 6)])] [[98]] [] ⟨3, false, []⟩
+    (by decide) (by decide) (List.mem_singleton.mpr rfl) (by simp) (by intro h; cases h)
+    (by decide) (by intro k' hk' _; simp [keys] at hk'; subst hk'; decide)
+/-- … and for the `[""]` resource of a nested site without `[]` resource -/
+example : Registered nestedRootSite [[107], []] ⟨8, false, []⟩ ∧
+    nestedRootSite.route [[107], []] = some ⟨8, [], [[107], []]⟩ :=
+  C17_listed_link_routes_to_resource [([[]], ⟨7, false, []⟩)] [([[]], ⟨8, false, []⟩)] _ []
+    [[107]] [[]] ⟨8, false, []⟩
+    (by decide) (by decide) (List.mem_singleton.mpr rfl) (by simp) (by intro _; rfl)
+    (by decide) (by intro k' hk' _; simp [keys] at hk'; subst hk'; decide)
 /-- one filter among the query items: `obs` has no `=`, `rt=li*` is the filter -/
 example : [[111, 98, 115], [114, 116, 61, 108, 105, 42]].filterMap splitEq =
     [(kRt, [108, 105, 42])] := by decide
-/-- listing of the example tree: full paths through the nested sites, root of `batch` as `1/` -/
+/-- listing of the example tree: full paths through the nested sites, root of `b` as `/b/` -/
 example : exampleSite.links.map (·.href) =
-    [[47, 1, 47, 2], [47, 1, 47, 2], [47, 1, 47]] := by decide
+    [[47, 98, 47, 108], [47, 98, 47, 108], [47, 98, 47]] := by decide
 example : exampleSite.visibleCount = 3 := by decide
+/-- hrefs of components with reserved characters: `("a/b",)` ↦ `/a%2Fb` ≠ `/a/b` ↤ `("a","b")`;
+`("x>y",)` ↦ `/x%3Ey`; `("ä",)` ↦ `/%C3%A4`; `("",)` and `()` ↦ `/` -/
+example : hrefSegs [[97, 47, 98]] = [47, 97, 37, 50, 70, 98] := by decide
+example : hrefSegs [[97], [98]] = [47, 97, 47, 98] := by decide
+example : hrefSegs [[120, 62, 121]] = [47, 120, 37, 51, 69, 121] := by decide
+example : hrefSegs [[195, 164]] = [47, 37, 67, 51, 37, 65, 52] := by decide
+example : (Site.node [([[]], ⟨1, false, []⟩), ([], ⟨2, false, []⟩)] []).links.map (·.href) =
+    [[47], [47]] := by decide
+example : parseHref [47, 97, 37, 50, 70, 98] = some [[97, 47, 98]] := by decide
+example : parseHref [47, 97, 37, 50] = none := by decide          -- truncated escape
+example : PathWf [[97, 47, 98], [], [195, 164]] := by unfold PathWf; decide
 /-- `rt="temp light"`: `rt=light`, `rt=li*` match an entry, `rt=ight*` does not (no substring
 match), `title=temp` does not match `title="temp light"` but `title=temp*` does -/
 def exampleLink : Link :=
@@ -736,5 +988,21 @@ example : linkMatches [116, 105, 116, 108, 101] [116, 101, 109, 112, 42] example
 example : linkMatches [111, 98, 115] [42] exampleLink = false := by decide      -- valueless
 example : linkMatches kIf [42] exampleLink = false := by decide                 -- absent
 example : Matches kRt [108, 105, 42] exampleLink := (linkMatches_iff _ _ _).mp (by decide)
+/-- two filters: `</t>;rt="temp";if="sensor"`, `</l>;rt="light";if="sensor"`, `</u>;rt="temp"`;
+`?rt=temp&if=sensor` and `?if=sensor&rt=temp` both keep `/t` only (each alone keeps two) -/
+def twoFilterLinks : List Link :=
+  [⟨[47, 116], [(kRt, some [116, 101, 109, 112]), (kIf, some [115])]⟩,
+   ⟨[47, 108], [(kRt, some [108, 105]), (kIf, some [115])]⟩,
+   ⟨[47, 117], [(kRt, some [116, 101, 109, 112])]⟩]
+example : (wkcRender twoFilterLinks none
+    [[114, 116, 61, 116, 101, 109, 112], [105, 102, 61, 115]]).map (·.href) = [[47, 116]] := by decide
+example : (wkcRender twoFilterLinks none
+    [[105, 102, 61, 115], [114, 116, 61, 116, 101, 109, 112]]).map (·.href) = [[47, 116]] := by decide
+example : (wkcRender twoFilterLinks none [[105, 102, 61, 115]]).map (·.href) =
+    [[47, 116], [47, 108]] := by decide
+example : (wkcRender twoFilterLinks none [[114, 116, 61, 116, 101, 109, 112]]).map (·.href) =
+    [[47, 116], [47, 117]] := by decide
+example : (wkcRender twoFilterLinks none
+    [[114, 116, 61, 116, 42], [114, 116, 61, 108, 42]]).map (·.href) = [] := by decide  -- same name twice
 
 end Aiocoap.Apps
